@@ -61,6 +61,9 @@ type FrameHeader struct {
 // AcquireFrameHeader gets a FrameHeader from pool.
 func AcquireFrameHeader() *FrameHeader {
 	fr := frameHeaderPool.Get().(*FrameHeader)
+	if verifOn {
+		vPoolGet(vpFrameHeader, fr)
+	}
 	fr.Reset()
 	return fr
 }
@@ -68,6 +71,9 @@ func AcquireFrameHeader() *FrameHeader {
 // ReleaseFrameHeader reset and puts fr to the pool.
 func ReleaseFrameHeader(fr *FrameHeader) {
 	ReleaseFrame(fr.Body())
+	if verifOn {
+		vPoolPut(vpFrameHeader, fr)
+	}
 	frameHeaderPool.Put(fr)
 }
 
@@ -140,6 +146,9 @@ func ReadFrameFrom(br *bufio.Reader) (*FrameHeader, error) {
 		if fr.Body() != nil {
 			ReleaseFrameHeader(fr)
 		} else {
+			if verifOn {
+				vPoolPut(vpFrameHeader, fr)
+			}
 			frameHeaderPool.Put(fr)
 		}
 
@@ -158,6 +167,9 @@ func ReadFrameFromWithSize(br *bufio.Reader, max uint32) (*FrameHeader, error) {
 		if fr.Body() != nil {
 			ReleaseFrameHeader(fr)
 		} else {
+			if verifOn {
+				vPoolPut(vpFrameHeader, fr)
+			}
 			frameHeaderPool.Put(fr)
 		}
 
